@@ -1,4 +1,7 @@
 import NanoVerif.Proofs.WLearnerBrute
+import NanoVerif.Proofs.WLearnerTreeLeaves
+import NanoVerif.Proofs.WLearnerKBestPredict
+import NanoVerif.Proofs.WLearnerKSplitPredict
 import Mathlib.Algebra.Order.Field.Rat
 import Mathlib.Tactic.NormNum
 /-!
@@ -525,6 +528,551 @@ theorem merge_preserves_sum (ls : List (Learner α)) (s : Nat → FVal α) (o : 
   simp only [predictOne_zero]
   exact h
 
+/-! ### decision tree: the fit (`dtree_wlearner_t::do_fit`, Model/WLearnerTree.lean)
+
+  `cfg : TreeCfg α` = what do_fit reads from its environment: the dataset size `N`, `max_depth`, `min_samples_size`, the
+  feature values `val sample feature` and the stump fit on a sample list as an ORACLE `cfg.fit` (any function): the
+  structural theorems hold for every such oracle; `dtree_leaf_table_is_mean` instantiates it with the modelled stump fit
+  (`stumpTreeCfg`). `st.log` is the ghost log: entry `j` = the `j`-th processed cache (its sample list, the candidate the
+  stump fit returned for it, terminal or not); its node pair is `2j, 2j+1`, a terminal entry owns the table rows
+  `tbase st.log j`, `tbase st.log j + 1`. All sample lists (repetitions, any order), all depths, all oracles. -/
+
+/-- do_fit terminates by itself: the model's fuel `2^max_depth` is never exhausted (at most `2^max_depth − 1` caches). -/
+theorem dtreeFit_fuel_enough (cfg : TreeCfg α) (hd : 1 ≤ cfg.maxDepth) (samples : List Nat) :
+    dtreeFit cfg samples ≠ .fuel :=
+  dtreeFit_fuel_enough' cfg hd samples
+
+/-- (a) `max_depth = 1`: the tree is fitted iff the stump is; it then has the stump's score, one node pair carrying the
+    stump's feature and threshold, the stump's two tables, and `split` / `predict` (`eval`: group and added vector) agree
+    with the stump's on EVERY sample (missing values included). (The statement's "tree of depth 1 = stump"; dtree.cpp fits
+    only stumps at its nodes, there is no table alternative in the code.) -/
+theorem dtree_depth1_eq_stump (cfg : TreeCfg α) (h1 : cfg.maxDepth = 1) (samples : List Nat) :
+    (cfg.fit samples = none → dtreeFit cfg samples = .nofit TState.init) ∧
+    (∀ cand, cfg.fit samples = some cand → ∃ st, dtreeFit cfg samples = .ok st ∧ st.score = cand.score ∧
+      st.nodes = [⟨cand.feature, cand.thr, 0, 0⟩, ⟨cand.feature, cand.thr, 0, 1⟩] ∧
+      st.tables = [tab cand.tables 0, tab cand.tables 1] ∧
+      ∀ s : Nat → FVal α, eval st.learner s = eval cand.toStump s) := by
+  have h2 : (2 : Nat) ^ cfg.maxDepth = 1 + 1 := by rw [h1]; rfl
+  constructor
+  · intro hf
+    unfold dtreeFit
+    rw [h2]
+    simp [dtreeLoop, hf]
+  · intro cand hf
+    refine ⟨(dtreeStep cfg TState.init ⟨samples, 0, 0⟩ cand).1, ?_, ?_, ?_, ?_, ?_⟩
+    · unfold dtreeFit
+      rw [h2]
+      simp [dtreeLoop, hf, dtreeStep, h1]
+    · simp [dtreeStep, h1, TState.init]
+    · simp [dtreeStep, h1, TState.init, setNext]
+    · simp [dtreeStep, h1, TState.init]
+    · intro s
+      simp only [dtreeStep, h1, TState.init, setNext, TState.learner, Cand.toStump, eval]
+      simp only [List.length_nil, Nat.zero_add, Nat.le_refl, or_true, if_true, List.getElem?_nil, List.nil_append,
+        List.length_cons, dtreeGroup, List.getElem?_cons_zero]
+      cases s cand.feature with
+      | num v =>
+        by_cases hv : v < cand.thr
+        · simp [hv, tab]
+        · simp [hv, tab]
+      | cls c => rfl
+      | missing => rfl
+
+/-- (e) well-formedness of a fitted tree: two nodes per processed cache and two table rows per terminal one; every cache
+    has depth `< max_depth` (children one more than their parent: `TInv.entry_origin`); every node is either a leaf node
+    (`next = 0`) whose table index is a valid row, or an inner node whose `next` points strictly FORWARD to a node pair inside
+    the list (so the node graph is acyclic); and the walk of `do_split` / `do_predict` (`dtreeRoute` = `dtreeGroup` with the
+    reason of a `none`) started with `nodes.length` fuel never runs out of fuel nor leaves the list, for ANY sample. -/
+theorem dtree_fit_wellformed (cfg : TreeCfg α) (hd : 1 ≤ cfg.maxDepth) (samples : List Nat) (st : TState α)
+    (h : dtreeFit cfg samples = .ok st) :
+    st.nodes.length = 2 * st.log.length ∧ st.tables.length = 2 * tc st.log ∧ 1 ≤ st.log.length ∧
+    (∀ e ∈ st.log, e.cache.depth < cfg.maxDepth) ∧
+    (∀ (i : Nat) (nd : Node α), st.nodes[i]? = some nd →
+      (nd.next = 0 ∧ ∃ L : Nat, nd.table = (L : Int) ∧ L < st.tables.length) ∨
+      (i < nd.next ∧ nd.next + 1 < st.nodes.length)) ∧
+    (∀ s : Nat → FVal α, dtreeRoute st.nodes s st.nodes.length 0 ≠ .stuck) := by
+  have hinv := dtreeFit_inv cfg samples hd st h
+  have hlen : 1 ≤ st.log.length := by
+    have := hinv.total
+    simp [allCaches] at this
+    omega
+  refine ⟨hinv.len, hinv.tabs, hlen, ?_, ?_, ?_⟩
+  · intro e he
+    exact hinv.depth e.cache (by simp [allCaches]; exact ⟨e, he, rfl⟩)
+  · intro i nd hi
+    have hilt : i < st.nodes.length := (List.getElem?_eq_some_iff.mp hi).1
+    rw [hinv.len] at hilt
+    have hj : i / 2 < st.log.length := by omega
+    have hg : i % 2 < 2 := Nat.mod_lt _ (by omega)
+    have hi2 : 2 * (i / 2) + i % 2 = i := Nat.div_add_mod i 2
+    obtain ⟨e, he⟩ : ∃ e, st.log[i / 2]? = some e := ⟨st.log[i / 2], List.getElem?_eq_getElem hj⟩
+    cases hterm : e.terminal with
+    | true =>
+      left
+      obtain ⟨nd', hnd', hnx, htab, htbl⟩ := hinv.term _ e he hterm _ hg
+      rw [hi2, hi] at hnd'
+      injection hnd' with hnd'
+      subst hnd'
+      exact ⟨hnx, _, htab, (List.getElem?_eq_some_iff.mp htbl).1⟩
+    | false =>
+      right
+      obtain ⟨e', he', hlt, _, nd', hnd', hnx⟩ := hinv.child _ e he hterm _ hg
+      rw [hi2, hi] at hnd'
+      injection hnd' with hnd'
+      subst hnd'
+      have hclt : cidx st.log (i / 2) (i % 2) < st.log.length := (List.getElem?_eq_some_iff.mp he').1
+      rw [hnx, hinv.len]
+      omega
+  · intro s
+    obtain ⟨e, he⟩ : ∃ e, st.log[0]? = some e := ⟨st.log[0], List.getElem?_eq_getElem hlen⟩
+    exact route_not_stuck hinv st.log.length 0 e he (by omega) s st.nodes.length (by rw [hinv.len]; omega)
+
+/-- (b) the leaves partition the fitted samples. For a fitted tree and a fitted sample `i` (valid index):
+    * `do_split` puts `i` into table row `L` exactly when `i` is in the sample list of a terminal cache, has the value of that
+      cache's feature and falls on the side of row `L` (`InLeaf`) — nothing is lost, nothing is invented;
+    * `do_split` leaves `i` unassigned exactly when `i` is in the sample list of some processed cache whose selected feature it
+      misses (`LostAt`) — never because the walk broke down;
+    * no sample is in two leaves, none is both in a leaf and lost;
+    and the sample list of every cache consists of fitted samples (below the root: valid indices). -/
+theorem dtree_leaves_partition (cfg : TreeCfg α) (hd : 1 ≤ cfg.maxDepth) (samples : List Nat) (st : TState α)
+    (h : dtreeFit cfg samples = .ok st) :
+    (∀ (j : Nat) (e : TEntry α), st.log[j]? = some e → ∀ i ∈ e.cache.samples, i ∈ samples ∧ (1 ≤ j → i < cfg.N)) ∧
+    ∀ i ∈ samples, i < cfg.N →
+      (∀ L, dtreeGroup st.nodes (cfg.val i) st.nodes.length 0 = some L ↔ InLeaf cfg st i L) ∧
+      (dtreeGroup st.nodes (cfg.val i) st.nodes.length 0 = none ↔ LostAt cfg st i) ∧
+      (∀ L L', InLeaf cfg st i L → InLeaf cfg st i L' → L = L') ∧
+      (∀ L, InLeaf cfg st i L → ¬ LostAt cfg st i) := by
+  have hinv := dtreeFit_inv cfg samples hd st h
+  have hlen : 1 ≤ st.log.length := (dtree_fit_wellformed cfg hd samples st h).2.2.1
+  refine ⟨fun j e he => hinv.entry_samples j j e (Nat.le_refl _) he, ?_⟩
+  intro i hi hiN
+  obtain ⟨e0, he0⟩ : ∃ e, st.log[0]? = some e := ⟨st.log[0], List.getElem?_eq_getElem hlen⟩
+  have hroot : e0.cache = ⟨samples, 0, 0⟩ := by
+    rcases hinv.entry_origin 0 e0 he0 with ⟨_, hc⟩ | ⟨j', _, _, hlt, _⟩
+    · exact hc
+    · omega
+  have hmem0 : i ∈ e0.cache.samples := by rw [hroot]; exact hi
+  have hF : st.log.length - 0 ≤ st.nodes.length := by rw [hinv.len]; omega
+  obtain ⟨hleaf, hns, hmiss⟩ := route_forward hinv st.log.length 0 e0 he0 (by omega) i hiN hmem0 st.nodes.length hF
+  -- from a leaf / a lost position back to the walk from the root
+  have hback : ∀ L, InLeaf cfg st i L → dtreeRoute st.nodes (cfg.val i) st.nodes.length 0 = .leaf L := by
+    rintro L ⟨j, e, v, he, hterm, hm, hv, rfl⟩
+    have hjlt : j < st.log.length := (List.getElem?_eq_some_iff.mp he).1
+    obtain ⟨F', hF', heq⟩ := route_through hinv j j e (Nat.le_refl _) he i hm st.nodes.length (by rw [hinv.len]; omega)
+    obtain ⟨f, rfl⟩ : ∃ f, F' = f + 1 := ⟨F' - 1, by omega⟩
+    rw [heq, route_terminal hinv j e he hterm _ v hv]
+  have hbackM : LostAt cfg st i → dtreeRoute st.nodes (cfg.val i) st.nodes.length 0 = .missing := by
+    rintro ⟨j, e, he, hm, hv⟩
+    have hjlt : j < st.log.length := (List.getElem?_eq_some_iff.mp he).1
+    obtain ⟨F', hF', heq⟩ := route_through hinv j j e (Nat.le_refl _) he i hm st.nodes.length (by rw [hinv.len]; omega)
+    obtain ⟨f, rfl⟩ : ∃ f, F' = f + 1 := ⟨F' - 1, by omega⟩
+    rw [heq, route_missing hinv j e he _ hv]
+  refine ⟨?_, ?_, ?_, ?_⟩
+  · intro L
+    rw [dtreeGroup_eq_route]
+    constructor
+    · intro hg
+      apply hleaf L
+      cases hr : dtreeRoute st.nodes (cfg.val i) st.nodes.length (2 * 0) with
+      | leaf g => simp only [Nat.mul_zero] at hr; rw [hr] at hg; simp [Route.toOption] at hg; rw [hg]
+      | missing => simp only [Nat.mul_zero] at hr; rw [hr] at hg; simp [Route.toOption] at hg
+      | stuck => exact absurd hr hns
+    · intro hL
+      rw [hback L hL]; rfl
+  · rw [dtreeGroup_eq_route]
+    constructor
+    · intro hg
+      apply hmiss
+      cases hr : dtreeRoute st.nodes (cfg.val i) st.nodes.length (2 * 0) with
+      | leaf g => simp only [Nat.mul_zero] at hr; rw [hr] at hg; simp [Route.toOption] at hg
+      | missing => rfl
+      | stuck => exact absurd hr hns
+    · intro hL
+      rw [hbackM hL]; rfl
+  · intro L L' h1 h2
+    have e1 := hback L h1
+    rw [hback L' h2] at e1
+    injection e1 with e1
+    exact e1.symm
+  · intro L h1 h2
+    have e1 := hback L h1
+    rw [hbackM h2] at e1
+    cases e1
+
+/-- (c) every leaf's table is the mean residual of the samples in that leaf. With the modelled stump fit at the nodes
+    (`stumpTreeCfg`; `resid i` = −gradient of sample `i`), for every terminal cache `e` of a fitted tree and each side `g`: the
+    table row `tbase st.log j + g` is the mean residual over the samples of the cache's list that `stump.split` puts on side
+    `g` — and these are exactly the samples of the list that `do_split` of the FITTED TREE sends to this row (`hN`: the
+    fitted indices are valid, the C++ `assert(samples.max() < dataset.samples())`); that set is not empty. By
+    `const_fit_optimal` the row therefore minimises the residual sum of squares of its leaf. -/
+theorem dtree_leaf_table_is_mean [Log α] [FinTest α] (sort : List (Item α) → List (Item α)) (hsort : SortSpec sort)
+    (T : Nat) (K big : α) (crit : Crit) (feats : List Nat) (val : Nat → Nat → FVal α) (resid : Nat → Vec α)
+    (N maxDepth minSplit : Nat) (hd : 1 ≤ maxDepth) (samples : List Nat) (hN : ∀ i ∈ samples, i < N) (st : TState α)
+    (h : dtreeFit (stumpTreeCfg sort T K big crit feats val resid N maxDepth minSplit) samples = .ok st)
+    (j : Nat) (e : TEntry α) (he : st.log[j]? = some e) (hterm : e.terminal = true) (g : Nat) (hg : g < 2) :
+    let leaf := e.cache.samples.filter fun i => stumpSide val e.cand.feature e.cand.thr i == some g
+    leaf ≠ [] ∧
+    (∃ t, st.tables[tbase st.log j + g]? = some t ∧ ∀ o, t o = meanOf (leaf.map resid) o) ∧
+    (∀ i ∈ e.cache.samples, i ∈ leaf ↔
+      dtreeGroup st.nodes (val i) st.nodes.length 0 = some (tbase st.log j + g)) := by
+  intro leaf
+  set cfg := stumpTreeCfg sort T K big crit feats val resid N maxDepth minSplit with hcfg
+  have hinv := dtreeFit_inv cfg samples hd st h
+  have hfit : stumpFitOn sort T K big crit feats val resid e.cache.samples = some e.cand := hinv.fitrec j e he
+  obtain ⟨_, f, _, hc⟩ := stumpFitOn_mem sort T K big crit feats val resid e.cache.samples e.cand hfit
+  obtain ⟨hfeat, _, hm0, hm1, hl, hr⟩ := stumpCands_means sort hsort T K crit f _ e.cand hc
+  subst hfeat
+  obtain ⟨nd, _, _, _, htbl⟩ := hinv.term j e he hterm g hg
+  have hg01 : g = 0 ∨ g = 1 := by omega
+  have hmean : ∀ o, tab e.cand.tables g o = meanOf (leaf.map resid) o := by
+    intro o
+    rcases hg01 with rfl | rfl
+    · rw [hm0 o, leftRows_rowsOf]
+    · rw [hm1 o, rightRows_rowsOf]
+  have hne : leaf ≠ [] := by
+    intro hnil
+    rcases hg01 with rfl | rfl
+    · apply hl
+      have h2 : (leftRows e.cand.thr (rowsOf val resid e.cache.samples e.cand.feature)).map (·.r) = [] := by
+        rw [leftRows_rowsOf]; show (leaf.map resid) = []; rw [hnil]; rfl
+      simpa using h2
+    · apply hr
+      have h2 : (rightRows e.cand.thr (rowsOf val resid e.cache.samples e.cand.feature)).map (·.r) = [] := by
+        rw [rightRows_rowsOf]; show (leaf.map resid) = []; rw [hnil]; rfl
+      simpa using h2
+  refine ⟨hne, ⟨_, htbl, hmean⟩, ?_⟩
+  intro i hi
+  obtain ⟨hsub, hpart⟩ := dtree_leaves_partition cfg hd samples st h
+  have hi0 : i ∈ samples := (hsub j e he i hi).1
+  have hiN : i < cfg.N := hN i hi0
+  obtain ⟨hiff, _, huniq, _⟩ := hpart i hi0 hiN
+  constructor
+  · intro hil
+    have hs : stumpSide val e.cand.feature e.cand.thr i = some g := by
+      have := (List.mem_filter.mp hil).2
+      simpa using this
+    obtain ⟨v, hv, hside⟩ := (stumpSide_eq_some _ _ _ _ _).mp hs
+    exact (hiff _).mpr ⟨j, e, v, he, hterm, hi, hv, by rw [hside]⟩
+  · intro hgr
+    -- the sample is in this cache's list: it reaches one of the two rows of this cache or is lost here
+    cases hs : stumpSide val e.cand.feature e.cand.thr i with
+    | none =>
+      exfalso
+      have hlost : LostAt cfg st i := ⟨j, e, he, hi, fun v hv => by
+        have := (stumpSide_eq_some val e.cand.feature e.cand.thr i (sideOf v e.cand.thr)).mpr ⟨v, hv, rfl⟩
+        rw [hs] at this; cases this⟩
+      exact (hpart i hi0 hiN).2.2.2 _ ((hiff _).mp hgr) hlost
+    | some g' =>
+      obtain ⟨v, hv, hside⟩ := (stumpSide_eq_some _ _ _ _ _).mp hs
+      have h1 : InLeaf cfg st i (tbase st.log j + g') := ⟨j, e, v, he, hterm, hi, hv, by rw [hside]⟩
+      have := huniq _ _ h1 ((hiff _).mp hgr)
+      have hgg : g' = g := by omega
+      apply List.mem_filter.mpr
+      refine ⟨hi, ?_⟩
+      rw [hs, hgg]; simp
+
+/-- (c′) the same without the ghost log — every row of the fitted tree's table is the mean residual of the samples that the
+    FITTED TREE ITSELF routes to that row: for every row `L` of `st.tables`, with `group i` = `do_split`'s answer for sample `i`
+    (`dtreeGroup`), the row is the mean of `resid` over
+      * the fitted list filtered by `group = L` (repetitions kept) when the tree is a single node pair (depth-1 tree / root
+        terminal), and
+      * the DISTINCT fitted samples `i < N` with `group i = L`, in increasing order, otherwise (`cluster_t::indices`),
+    and that list is not empty. The rows are numbered without gaps: (terminal cache, side) ↦ row is a bijection (`tbase_inj`,
+    `tbase_surj`). -/
+theorem dtree_leaf_rows_are_means [Log α] [FinTest α] (sort : List (Item α) → List (Item α)) (hsort : SortSpec sort)
+    (T : Nat) (K big : α) (crit : Crit) (feats : List Nat) (val : Nat → Nat → FVal α) (resid : Nat → Vec α)
+    (N maxDepth minSplit : Nat) (hd : 1 ≤ maxDepth) (samples : List Nat) (hN : ∀ i ∈ samples, i < N) (st : TState α)
+    (h : dtreeFit (stumpTreeCfg sort T K big crit feats val resid N maxDepth minSplit) samples = .ok st)
+    (L : Nat) (hL : L < st.tables.length) :
+    let group := fun i => dtreeGroup st.nodes (val i) st.nodes.length 0
+    let base := if st.nodes.length = 2 then samples else (List.range N).filter fun i => samples.contains i
+    let leaf := base.filter fun i => group i == some L
+    leaf ≠ [] ∧ ∃ t, st.tables[L]? = some t ∧ ∀ o, t o = meanOf (leaf.map resid) o := by
+  intro group base leaf
+  set cfg := stumpTreeCfg sort T K big crit feats val resid N maxDepth minSplit with hcfg
+  have hinv := dtreeFit_inv cfg samples hd st h
+  obtain ⟨j, e, g, he, hterm, hg, rfl⟩ := tbase_surj st.log L (by rw [← hinv.tabs]; exact hL)
+  obtain ⟨hne, ⟨t, ht, hmean⟩, hiff⟩ :=
+    dtree_leaf_table_is_mean sort hsort T K big crit feats val resid N maxDepth minSplit hd samples hN st h j e he hterm g hg
+  obtain ⟨hsub, hpart⟩ := dtree_leaves_partition cfg hd samples st h
+  -- the leaf of the ghost statement, filtered by the tree's own routing
+  have hleaf' : (e.cache.samples.filter fun i => stumpSide val e.cand.feature e.cand.thr i == some g)
+      = e.cache.samples.filter fun i => group i == some (tbase st.log j + g) := by
+    apply List.filter_congr
+    intro i hi
+    have := hiff i hi
+    rw [List.mem_filter] at this
+    by_cases hs : (stumpSide val e.cand.feature e.cand.thr i == some g) = true
+    · rw [hs]; symm
+      have := this.mp ⟨hi, hs⟩
+      simp only [group, this, beq_self_eq_true]
+    · have hs' : (stumpSide val e.cand.feature e.cand.thr i == some g) = false := by simpa using hs
+      rw [hs']; symm
+      apply Bool.eq_false_iff.mpr
+      intro hc
+      have hc' : group i = some (tbase st.log j + g) := by simpa using hc
+      exact hs (this.mpr hc').2
+  -- the sample list of the cache in terms of the fitted list
+  have hbase : (e.cache.samples.filter fun i => group i == some (tbase st.log j + g)) = leaf := by
+    rcases hinv.entry_origin j e he with ⟨rfl, hc⟩ | ⟨j', e', g', hlt, he', hterm', hg', hcx, hc⟩
+    · -- the root is terminal: the tree is one node pair
+      have hlen1 : st.log.length = 1 := by
+        by_contra hne1
+        have hl : 1 < st.log.length := by
+          have := (List.getElem?_eq_some_iff.mp he).1; omega
+        obtain ⟨e1, he1⟩ : ∃ e1, st.log[1]? = some e1 := ⟨st.log[1], List.getElem?_eq_getElem hl⟩
+        rcases hinv.entry_origin 1 e1 he1 with ⟨h0, _⟩ | ⟨j0, e0, _, hlt0, he0, hterm0, _⟩
+        · omega
+        · have : j0 = 0 := by omega
+          subst this
+          rw [he] at he0; injection he0 with he0
+          rw [he0, hterm0] at hterm; cases hterm
+      have hn2 : st.nodes.length = 2 := by rw [hinv.len, hlen1]
+      simp only [leaf, base, hn2, if_true]
+      rw [hc]
+    · -- below the root: the distinct valid samples
+      have hjpos : 1 ≤ j := by omega
+      have hn2 : st.nodes.length ≠ 2 := by
+        rw [hinv.len]
+        have := (List.getElem?_eq_some_iff.mp he).1
+        omega
+      simp only [leaf, base, hn2, if_false]
+      rw [hc]
+      simp only [childSamples]
+      rw [List.filter_filter, List.filter_filter]
+      apply List.filter_congr
+      intro i hi
+      have hiN : i < N := List.mem_range.mp hi
+      by_cases hgr : (group i == some (tbase st.log j + g)) = true
+      · rw [hgr, Bool.true_and, Bool.true_and]
+        have hgr' : group i = some (tbase st.log j + g) := by simpa using hgr
+        by_cases hs : samples.contains i = true
+        · rw [hs]
+          have hi0 : i ∈ samples := List.contains_iff_mem.mp hs
+          obtain ⟨j2, e2, v2, he2, ht2, hm2, hv2, hL2⟩ := ((hpart i hi0 hiN).1 _).mp hgr'
+          have hs2 : sideOf v2 e2.cand.thr < 2 := by unfold sideOf; split <;> omega
+          obtain ⟨hjj, _⟩ := tbase_inj st.log j j2 g _ e e2 he he2 hterm ht2 hg hs2 hL2
+          subst hjj
+          rw [he] at he2; injection he2 with he2
+          subst he2
+          rw [hc] at hm2
+          have := (mem_childSamples _ _ _ _ _ _ _).mp hm2
+          obtain ⟨_, hm', v', hv', hside'⟩ := this
+          have : (e'.cache.samples.contains i && (stumpSide cfg.val e'.cand.feature e'.cand.thr i == some g')) = true := by
+            rw [Bool.and_eq_true, List.contains_iff_mem, beq_iff_eq, stumpSide_eq_some]
+            exact ⟨hm', v', hv', hside'⟩
+          exact this
+        · have hs' : samples.contains i = false := by simpa using hs
+          rw [hs']
+          apply Bool.eq_false_iff.mpr
+          intro hc2
+          rw [Bool.and_eq_true, List.contains_iff_mem] at hc2
+          have : i ∈ samples := (hsub j' e' he' i hc2.1).1
+          exact hs (List.contains_iff_mem.mpr this)
+      · have hgr' : (group i == some (tbase st.log j + g)) = false := by simpa using hgr
+        rw [hgr', Bool.false_and, Bool.false_and]
+  rw [hleaf', hbase] at hne hmean
+  exact ⟨hne, t, ht, hmean⟩
+
+/-- (d) fit–predict consistency of a fitted tree (RSS criterion, modelled stump fit at the nodes). For every terminal cache
+    `e`: the RSS its stump fit handed to `make_score` is the RSS, over the samples of that cache, of the predictions of the
+    WHOLE FITTED TREE (`predict` from zero outputs) — on the samples of a leaf pair the tree predicts what that pair's stump
+    predicts, zero where the stump's feature is missing; its score is `max(rss, K)`; and the score `fit` returns is the sum
+    of these scores over the terminal caches in processing order. (It is NOT in general the RSS of the tree over the fitted
+    list: samples dropped at an inner node for a missing value are counted nowhere, repeated indices only at the root.) -/
+theorem dtree_fit_predict_reproduces_rss [Log α] [FinTest α] (sort : List (Item α) → List (Item α)) (hsort : SortSpec sort)
+    (T : Nat) (K big : α) (feats : List Nat) (val : Nat → Nat → FVal α) (resid : Nat → Vec α)
+    (N maxDepth minSplit : Nat) (hd : 1 ≤ maxDepth) (samples : List Nat) (hN : ∀ i ∈ samples, i < N) (st : TState α)
+    (h : dtreeFit (stumpTreeCfg sort T K big Crit.rss feats val resid N maxDepth minSplit) samples = .ok st) :
+    (∀ (j : Nat) (e : TEntry α), st.log[j]? = some e → e.terminal = true →
+      e.cand.rss = lsum (e.cache.samples.map fun i => sqErr T (resid i) (predictOne st.learner (val i) zeroV)) ∧
+      e.cand.score = cmax e.cand.rss K) ∧
+    st.score = sumL (fun e : TEntry α => e.cand.score) (st.log.filter fun e => e.terminal) 0 := by
+  set cfg := stumpTreeCfg sort T K big Crit.rss feats val resid N maxDepth minSplit with hcfg
+  have hinv := dtreeFit_inv cfg samples hd st h
+  refine ⟨?_, hinv.scoreInv⟩
+  intro j e he hterm
+  have hfit : stumpFitOn sort T K big Crit.rss feats val resid e.cache.samples = some e.cand := hinv.fitrec j e he
+  obtain ⟨_, f, _, hc⟩ := stumpFitOn_mem sort T K big Crit.rss feats val resid e.cache.samples e.cand hfit
+  have hspec := stumpCands_spec sort hsort T K f _ e.cand hc
+  have hfeat : e.cand.feature = f := hspec.feature
+  subst hfeat
+  refine ⟨?_, hspec.score⟩
+  rw [hspec.rss_eq]
+  unfold rssOf rowsOf
+  rw [List.map_map]
+  apply lsum_map_congr
+  intro i hi
+  simp only [Function.comp_def]
+  apply sqErr_congr
+  intro o
+  obtain ⟨hsub, hpart⟩ := dtree_leaves_partition cfg hd samples st h
+  have hi0 : i ∈ samples := (hsub j e he i hi).1
+  obtain ⟨hiff, hnone, _, _⟩ := hpart i hi0 (hN i hi0)
+  have hvalcfg : cfg.val = val := rfl
+  rw [hvalcfg] at hiff hnone
+  rw [predictOne_zero]
+  unfold contrib
+  simp only [TState.learner, eval]
+  cases hv : val i e.cand.feature with
+  | num v =>
+    have hL : InLeaf cfg st i (tbase st.log j + sideOf v e.cand.thr) := ⟨j, e, v, he, hterm, hi, hv, rfl⟩
+    have hg : sideOf v e.cand.thr < 2 := by unfold sideOf; split <;> omega
+    obtain ⟨_, _, _, _, htbl⟩ := hinv.term j e he hterm _ hg
+    have hgr : dtreeGroup st.nodes (val i) st.nodes.length 0 = some (tbase st.log j + sideOf v e.cand.thr) := (hiff _).mpr hL
+    simp only [hgr, stumpPred]
+    have : tab st.tables (tbase st.log j + sideOf v e.cand.thr) = tab e.cand.tables (sideOf v e.cand.thr) := by
+      unfold tab
+      rw [List.getD_eq_getElem?_getD, htbl]
+      rfl
+    rw [this]
+    unfold sideOf
+    split <;> rfl
+  | cls c =>
+    have hlost : LostAt cfg st i := ⟨j, e, he, hi, fun v hh => by
+      have hh' : val i e.cand.feature = FVal.num v := hh
+      rw [hv] at hh'; cases hh'⟩
+    simp [hnone.mpr hlost, stumpPred]
+  | missing =>
+    have hlost : LostAt cfg st i := ⟨j, e, he, hi, fun v hh => by
+      have hh' : val i e.cand.feature = FVal.num v := hh
+      rw [hv] at hh'; cases hh'⟩
+    simp [hnone.mpr hlost, stumpPred]
+
+/-! ### k-best tables: the fit (`kbest_table_wlearner_t::do_fit`, `score_kbest`, Model/WLearnerKTable.lean) -/
+
+/-- What `kbest_table_wlearner_t::fit` returns with the RSS criterion. The candidate family of `score_kbest` on one feature
+    is: for every `k`, the table on the `k` label sets with the smallest `delta = −|Σr|²/n` (zero prediction elsewhere); every
+    delta is `≤ 0`, so under the RSS criterion the greedy sequence ends at the table that keeps every label set, whose RSS is
+    the dense table's. Hence: no candidate exists exactly when no categorical feature has a present value; otherwise the
+    reported score is `max(m, K)` with `m` the RSS of the DENSE table of the best feature — the minimum over ALL tables on all
+    features (any vector per label set), in particular over all tables on any SUBSET of the label sets, which is the
+    hypothesis class of the k-best learner. `sortP` = `std::sort` of the `(delta, bin)` pairs: only "it returns a
+    permutation" is used. -/
+theorem kbest_fit_eq_brute [FinTest α] [Log α] (hfin : ∀ y : α, FinTest.isFin y = true)
+    (sortP : List (α × Nat) → List (α × Nat)) (hperm : ∀ l, (sortP l).Perm l) (T : Nat) (K big : α)
+    (cols : List (Nat × List (CRow α))) (hbig : ∀ c ∈ kbestAll sortP T K cols, c.score < big) :
+    (kbestAll sortP T K cols = [] →
+      fitSeq big (kbestAll sortP T K cols) = noFit big ∧ ∀ p ∈ cols, hashesOf p.2 = []) ∧
+    (kbestAll sortP T K cols ≠ [] →
+      (∃ p ∈ cols, hashesOf p.2 ≠ [] ∧
+        (fitSeq big (kbestAll sortP T K cols)).score = cmax (denseCand T K Crit.rss p.1 p.2).rss K) ∧
+      ∀ q ∈ cols, hashesOf q.2 ≠ [] → ∀ tbl : Nat → Vec α,
+        (fitSeq big (kbestAll sortP T K cols)).score ≤ cmax (rssOfC T q.2 (tablePred tbl)) K) := by
+  obtain ⟨hnil, hcons⟩ := fitSeq_min hfin big (kbestAll sortP T K cols) hbig
+  have hfull : ∀ q ∈ cols, hashesOf q.2 ≠ [] → ∃ c ∈ kbestAll sortP T K cols,
+      c.score = cmax (denseCand T K Crit.rss q.1 q.2).rss K := by
+    intro q hq hh
+    obtain ⟨c, hc, hrss⟩ := (kbestCands_spec sortP hperm T K q.1 q.2).2 hh
+    refine ⟨c, List.mem_flatMap.mpr ⟨q, hq, hc⟩, ?_⟩
+    rw [((kbestCands_spec sortP hperm T K q.1 q.2).1 c hc).2.1, hrss]
+  constructor
+  · intro he
+    refine ⟨hnil he, ?_⟩
+    intro p hp
+    by_contra hh
+    obtain ⟨c, hc, _⟩ := hfull p hp hh
+    rw [he] at hc; simp at hc
+  · intro hne
+    obtain ⟨hmem, hmin⟩ := hcons hne
+    have hq : ∀ q ∈ cols, hashesOf q.2 ≠ [] →
+        (fitSeq big (kbestAll sortP T K cols)).score ≤ cmax (denseCand T K Crit.rss q.1 q.2).rss K := by
+      intro q hq hh
+      obtain ⟨c, hc, hs⟩ := hfull q hq hh
+      rw [← hs]; exact hmin c hc
+    constructor
+    · obtain ⟨p, hp, hbest⟩ := List.mem_flatMap.mp hmem
+      have hh : hashesOf p.2 ≠ [] := by
+        intro he
+        simp [kbestCands, he] at hbest
+      obtain ⟨_, hscore, hle⟩ := (kbestCands_spec sortP hperm T K p.1 p.2).1 _ hbest
+      refine ⟨p, hp, hh, le_antisymm (hq p hp hh) ?_⟩
+      rw [hscore]; exact cmax_mono K hle
+    · intro q hq' hh tbl
+      exact le_trans (hq q hq' hh) (cmax_mono K ((denseCand_spec T K Crit.rss q.1 q.2).2 tbl))
+
+/-- The greedy choice of `score_kbest` is optimal for its own candidate family, for EVERY criterion: the candidate `kbest = k`
+    keeps the `k` label sets with the smallest deltas (`std::sort` = any sorted permutation, `PairSortSpec`), and its RSS
+    `rss0 + Σ (k smallest deltas)` is at most `rss0 + Σ_{b ∈ S} delta(b)` — the RSS of the table that predicts the bin mean on
+    the label sets of `S` and zero elsewhere — for every choice `S` of `k` distinct label sets of the feature. As the criteria
+    are increasing in the RSS for fixed `(k, n)`, the candidate also has the best criterion value among the `k`-subsets. -/
+theorem kbest_greedy_optimal_per_size [Log α] (sortP : List (α × Nat) → List (α × Nat)) (hsort : PairSortSpec sortP)
+    (T : Nat) (K : α) (crit : Crit) (f : Nat) (rows : List (CRow α)) (c : Cand α)
+    (hc : c ∈ kbestCands sortP T K crit f rows 0) (S : List (α × Nat)) (hS : S.Sublist (binDeltas T rows))
+    (hk : S.length = c.tables.length) :
+    c.rss ≤ dstepRss0 T rows + lsum (S.map (·.1)) :=
+  kbestCands_optimal_per_k sortP hsort T K crit f rows c hc S hS hk
+
+/-- Fit–predict consistency of the k-best table, for EVERY criterion and every candidate `kbest = 1 … bins` the fit can
+    select: the RSS handed to `make_score` (the running `rss += mapping[kbest−1].first`) is the RSS, from the definition, of the
+    predictions of the table learner that `fit` stores for it — kept hashes re-sorted, `hash2tables = 0 … kbest−1`, bin means,
+    looked up by `nano::find`'s binary search; every label set that is not kept and every missing value is predicted zero. -/
+theorem kbest_fit_predict_reproduces_rss [Log α] (sortP : List (α × Nat) → List (α × Nat)) (hperm : ∀ l, (sortP l).Perm l)
+    (T : Nat) (K : α) (crit : Crit) (f : Nat) (rows : List (CRow α)) :
+    ∀ c ∈ kbestCands sortP T K crit f rows 0, c.rss = predRssC T c.toTable f rows :=
+  fun c hc => kbestCands_predict sortP hperm T K crit f rows c hc
+
+/-! ### k-split tables: the fit (`ksplit_table_wlearner_t::do_fit`, `score_ksplit`, `accumulator_t::cluster`) -/
+
+/-- What `ksplit_table_wlearner_t::fit` returns with the RSS criterion. The candidate family of `score_ksplit` on one feature
+    is the sequence of partitions of the label sets produced by the GREEDY agglomeration of `accumulator_t::cluster` (merge the two
+    clusters whose mean outputs are closest), one candidate per number of clusters. Merging two clusters never lowers the RSS
+    (`cluScore_merge`, Cauchy–Schwarz), so every candidate has at least the RSS of the first one — every label set its own
+    cluster: the DENSE table. Hence with the RSS criterion: no candidate exists exactly when no categorical feature has a
+    present value; otherwise the reported score is `max(m, K)` with `m` the dense table's RSS on the best feature, the minimum
+    over all tables on all features (in particular over all tables that are constant on the parts of ANY partition of the label
+    sets — the hypothesis class of the k-split learner). For a FIXED number of clusters the greedy choice is NOT optimal: see the
+    counterexample among the examples below (it matters for AIC / AICc / BIC only). -/
+theorem ksplit_fit_eq_brute [FinTest α] [Log α] (hfin : ∀ y : α, FinTest.isFin y = true) (T : Nat) (K big cbig : α)
+    (cols : List (Nat × List (CRow α))) (hbig : ∀ c ∈ ksplitAll T K cbig cols, c.score < big) :
+    (ksplitAll T K cbig cols = [] →
+      fitSeq big (ksplitAll T K cbig cols) = noFit big ∧ ∀ p ∈ cols, hashesOf p.2 = []) ∧
+    (ksplitAll T K cbig cols ≠ [] →
+      (∃ p ∈ cols, hashesOf p.2 ≠ [] ∧
+        (fitSeq big (ksplitAll T K cbig cols)).score = cmax (denseCand T K Crit.rss p.1 p.2).rss K) ∧
+      ∀ q ∈ cols, hashesOf q.2 ≠ [] → ∀ tbl : Nat → Vec α,
+        (fitSeq big (ksplitAll T K cbig cols)).score ≤ cmax (rssOfC T q.2 (tablePred tbl)) K) := by
+  obtain ⟨hnil, hcons⟩ := fitSeq_min hfin big (ksplitAll T K cbig cols) hbig
+  have hfull : ∀ q ∈ cols, hashesOf q.2 ≠ [] → ∃ c ∈ ksplitAll T K cbig cols,
+      c.score = cmax (denseCand T K Crit.rss q.1 q.2).rss K := by
+    intro q hq hh
+    obtain ⟨c, hc, hrss, _⟩ := (ksplitCands_spec T K cbig q.1 q.2).2 hh
+    refine ⟨c, List.mem_flatMap.mpr ⟨q, hq, hc⟩, ?_⟩
+    rw [((ksplitCands_spec T K cbig q.1 q.2).1 c hc).2.1, hrss]
+  constructor
+  · intro he
+    refine ⟨hnil he, ?_⟩
+    intro p hp
+    by_contra hh
+    obtain ⟨c, hc, _⟩ := hfull p hp hh
+    rw [he] at hc; simp at hc
+  · intro hne
+    obtain ⟨hmem, hmin⟩ := hcons hne
+    have hq : ∀ q ∈ cols, hashesOf q.2 ≠ [] →
+        (fitSeq big (ksplitAll T K cbig cols)).score ≤ cmax (denseCand T K Crit.rss q.1 q.2).rss K := by
+      intro q hq hh
+      obtain ⟨c, hc, hs⟩ := hfull q hq hh
+      rw [← hs]; exact hmin c hc
+    constructor
+    · obtain ⟨p, hp, hbest⟩ := List.mem_flatMap.mp hmem
+      have hh : hashesOf p.2 ≠ [] := by
+        intro he
+        simp [ksplitCands, he, cluTrials] at hbest
+      obtain ⟨_, hscore, hle⟩ := (ksplitCands_spec T K cbig p.1 p.2).1 _ hbest
+      refine ⟨p, hp, hh, le_antisymm (hq p hp hh) ?_⟩
+      rw [hscore]; exact cmax_mono K hle
+    · intro q hq' hh tbl
+      exact le_trans (hq q hq' hh) (cmax_mono K ((denseCand_spec T K Crit.rss q.1 q.2).2 tbl))
+
+/-- Fit–predict consistency of the k-split table, for EVERY criterion and every candidate (every trial of the greedy
+    agglomeration) the fit can select: the RSS handed to `make_score` (sum of the clusters' `r2 − r1²/x0` + missing) is the RSS,
+    from the definition, of the predictions of the table learner that `fit` stores for it — all hashes, `hash2tables =
+    cluster_id` of that trial, one row per cluster = its mean output. Through all trials the moments of a cluster are the sums
+    of the moments of the bins mapped to it (`CluRel`, `cluTrials_rel`). -/
+theorem ksplit_fit_predict_reproduces_rss [Log α] (T : Nat) (K cbig : α) (crit : Crit) (f : Nat) (rows : List (CRow α)) :
+    ∀ c ∈ ksplitCands T K cbig crit f rows, c.rss = predRssC T c.toTable f rows :=
+  fun c hc => ksplitCands_predict T K cbig crit f rows c hc
+
 /-! ### non-vacuity: the hypotheses are satisfiable on concrete data over ℚ -/
 
 section examples
@@ -587,6 +1135,133 @@ example :
     try norm_num
   · simp [fitAssigned, streamC, fitSeq, pick, noFit, minReduce, lessSF, FinTest.isFin]
     try norm_num
+
+/-- a toy stump oracle for the structural tree theorems: threshold just above the second sample of the list, no fit on fewer
+    than two samples -/
+def exOracle : List Nat → Option (Cand ℚ)
+  | _ :: b :: _ => some ⟨1, 1, 0, (b : ℚ) + 1 / 2, 0, [], [], [fun _ => 1, fun _ => 2]⟩
+  | _ => none
+
+def exTreeCfg (depth : Nat) : TreeCfg ℚ :=
+  { N := 6, maxDepth := depth, minSamples := 0, fit := exOracle, val := fun i _ => .num (i : ℚ) }
+
+def okShape {β : Type} : TResult β → Nat × Nat × Nat
+  | .ok st => (st.nodes.length, st.tables.length, st.log.length)
+  | .nofit _ => (0, 0, 1)
+  | .fuel => (0, 0, 0)
+
+/-- the hypothesis `dtreeFit cfg samples = .ok st` of `dtree_fit_wellformed` / `dtree_leaves_partition` is satisfiable: a
+    tree of depth 2 on seven fitted samples (one repeated) with three processed caches, six nodes, four leaves … -/
+example : ∃ st, dtreeFit (exTreeCfg 2) [0, 1, 2, 3, 4, 5, 5] = .ok st ∧ st.nodes.length = 6 ∧ st.tables.length = 4 := by
+  have h : okShape (dtreeFit (exTreeCfg 2) [0, 1, 2, 3, 4, 5, 5]) = (6, 4, 3) := by decide +kernel
+  cases hr : dtreeFit (exTreeCfg 2) [0, 1, 2, 3, 4, 5, 5] with
+  | ok st => rw [hr] at h; simp [okShape] at h; exact ⟨st, rfl, h.1, h.2.1⟩
+  | nofit st => rw [hr] at h; simp [okShape] at h
+  | fuel => rw [hr] at h; simp [okShape] at h
+
+/-- … and the whole fit fails as soon as one inner stump fit fails (depth 3: the cache `[0, 1]` splits into `[0, 1]` and `[]`) -/
+example : okShape (dtreeFit (exTreeCfg 3) [0, 1, 2, 3, 4, 5, 5]) = (0, 0, 1) := by decide +kernel
+
+/-- `dtree_depth1_eq_stump`: both branches occur -/
+example : exOracle [3] = none ∧ (exOracle [0, 1, 2]).isSome = true := by decide
+
+/-- `dtree_leaf_table_is_mean`, `dtree_leaf_rows_are_means`, `dtree_fit_predict_reproduces_rss`: their hypotheses are
+    satisfiable — the modelled stump fit at the root of a depth-1 tree on three samples with the values 0, 1, 2 of one scalar
+    feature and residuals 1, 1, 5 (RSS criterion): a fitted tree with a terminal entry and a non-empty table -/
+example : ∃ st e, dtreeFit (stumpTreeCfg (fun l => l.mergeSort itemLe) 1 (0 : ℚ) 1000 Crit.rss [0]
+      (fun i _ => FVal.num (i : ℚ)) (fun i _ => if i < 2 then (1 : ℚ) else 5) 3 1 5) [0, 1, 2] = .ok st ∧
+    st.log[0]? = some e ∧ e.terminal = true ∧ 0 < st.tables.length := by
+  set val : Nat → Nat → FVal ℚ := fun i _ => FVal.num (i : ℚ) with hval
+  set resid : Nat → Vec ℚ := fun i _ => if i < 2 then (1 : ℚ) else 5 with hresid
+  set sort : List (Item ℚ) → List (Item ℚ) := fun l => l.mergeSort itemLe with hsortd
+  have hsort : SortSpec sort := mergeSort_sortSpec
+  set rows := rowsOf val resid [0, 1, 2] 0 with hrows
+  have hrows' : rows = [⟨0, some 0, resid 0⟩, ⟨1, some 1, resid 1⟩, ⟨2, some 2, resid 2⟩] := by
+    simp [hrows, rowsOf, hval]
+  -- a candidate exists
+  obtain ⟨c0, hc0, _⟩ := stumpCands_complete sort hsort 1 (0 : ℚ) Crit.rss 0 rows (1 / 2)
+    ⟨⟨0, 0, resid 0⟩, by simp [hrows', present], by norm_num⟩
+    ⟨⟨1, 1, resid 1⟩, by simp [hrows', present], by norm_num⟩
+  set cands := [0].flatMap fun f => stumpCands sort 1 (0 : ℚ) Crit.rss f (rowsOf val resid [0, 1, 2] f) with hcands
+  have hcs : cands = stumpCands sort 1 (0 : ℚ) Crit.rss 0 rows := by simp [hcands, hrows]
+  have hne : cands ≠ [] := by rw [hcs]; exact List.ne_nil_of_mem hc0
+  -- every candidate scores at most the sum of the squared residuals
+  have hbig : ∀ c ∈ cands, c.score < 1000 := by
+    intro c hc
+    rw [hcs] at hc
+    have hs := stumpCands_spec sort hsort 1 (0 : ℚ) 0 rows c hc
+    have h1 := hs.coeff_opt zeroV zeroV
+    have h2 : rssOf 1 rows (stumpPred c.thr zeroV zeroV) = 27 := by
+      have hp : ∀ x, stumpPred c.thr zeroV zeroV x = (zeroV : Vec ℚ) := by
+        intro x; cases x <;> simp [stumpPred]
+      rw [hrows']
+      simp only [rssOf, List.map_cons, List.map_nil, lsum, hp, sqErr, vsum, hresid]
+      simp [zeroV]
+      norm_num
+    rw [hs.score, cmax_eq_max]
+    rw [h2] at h1
+    exact max_lt (lt_of_le_of_lt h1 (by norm_num)) (by norm_num)
+  obtain ⟨hmem, _⟩ := (fitSeq_min (fun _ => rfl) 1000 cands hbig).2 hne
+  have hfit : stumpFitOn sort 1 (0 : ℚ) 1000 Crit.rss [0] val resid [0, 1, 2] = some (fitSeq 1000 cands) := by
+    unfold stumpFitOn
+    simp only [← hcands]
+    rw [if_pos]
+    simpa [Cand.fitted] using hbig _ hmem
+  obtain ⟨st, hst, _, hnodes, htabs, _⟩ := (dtree_depth1_eq_stump
+    (stumpTreeCfg sort 1 (0 : ℚ) 1000 Crit.rss [0] val resid 3 1 5) rfl [0, 1, 2]).2 _ hfit
+  have hinv := dtreeFit_inv _ _ (by simp [stumpTreeCfg]) st hst
+  have hlen : st.log.length = 1 := by have := hinv.len; rw [hnodes] at this; simp at this; omega
+  obtain ⟨e, he⟩ : ∃ e, st.log[0]? = some e := ⟨st.log[0], List.getElem?_eq_getElem (by omega)⟩
+  refine ⟨st, e, hst, he, ?_, by rw [htabs]; simp⟩
+  -- the only entry of a depth-1 tree is terminal
+  by_contra hterm
+  have hterm' : e.terminal = false := by simpa using hterm
+  obtain ⟨e', he', hlt, _⟩ := hinv.child 0 e he hterm' 0 (by omega)
+  have := (List.getElem?_eq_some_iff.mp he').1
+  omega
+
+/-- six fitted samples of one categorical feature: label set 0 four times with residual 0, label set 1 once with residual 1,
+    label set 2 once with residual 21/10 -/
+def exCRows : List (CRow ℚ) :=
+  [⟨0, some 0, fun _ => 0⟩, ⟨1, some 0, fun _ => 0⟩, ⟨2, some 0, fun _ => 0⟩, ⟨3, some 0, fun _ => 0⟩,
+   ⟨4, some 1, fun _ => 1⟩, ⟨5, some 2, fun _ => 21 / 10⟩]
+
+/-- `kbest_fit_eq_brute` / `ksplit_fit_eq_brute`: the candidate lists are not empty on `exCRows` (3 label sets → 3 candidates
+    each), and the sort oracle of the driver is a permutation -/
+example : (kbestCands (fun l => l.mergeSort pairLe) 1 (0 : ℚ) Crit.rss 0 exCRows 0).length = 3 ∧
+    (ksplitCands 1 (0 : ℚ) 1000 Crit.rss 0 exCRows).length = 3 := by
+  constructor
+  · simp [kbestCands, exCRows, hashesOf, insertUniq]
+  · simp [ksplitCands, exCRows, hashesOf, insertUniq, cluTrials]
+
+example : PairSortSpec (α := ℚ) (fun l => l.mergeSort pairLe) := mergeSort_pairSortSpec
+
+/-- `kbest_greedy_optimal_per_size`: its hypotheses are satisfiable on `exCRows` — a candidate exists, and the first
+    `c.tables.length` entries of the delta list are a competing choice of as many bins -/
+example : ∃ c ∈ kbestCands (fun l => l.mergeSort pairLe) 1 (0 : ℚ) Crit.rss 0 exCRows 0,
+    ∃ S : List (ℚ × Nat), S.Sublist (binDeltas 1 exCRows) ∧ S.length = c.tables.length := by
+  have hlen : (kbestCands (fun l => l.mergeSort pairLe) 1 (0 : ℚ) Crit.rss 0 exCRows 0).length = 3 := by
+    simp [kbestCands, exCRows, hashesOf, insertUniq]
+  obtain ⟨c, hc⟩ := List.exists_mem_of_ne_nil _ (List.ne_nil_of_length_pos (by omega : 0 <
+    (kbestCands (fun l => l.mergeSort pairLe) 1 (0 : ℚ) Crit.rss 0 exCRows 0).length))
+  refine ⟨c, hc, (binDeltas 1 exCRows).take c.tables.length, List.take_sublist _ _, ?_⟩
+  have hle : c.tables.length ≤ (binDeltas 1 exCRows).length := by
+    simp only [kbestCands, Nat.lt_irrefl, if_true, Nat.lt_one_iff] at hc
+    obtain ⟨i, _, rfl⟩ := List.mem_map.mp hc
+    simp only [kbestCandOf, List.length_map, sortAsc_length, List.length_take]
+    rw [(List.mergeSort_perm (binDeltas 1 exCRows) pairLe).length_eq]
+    exact Nat.min_le_right _ _
+  rw [List.length_take, Nat.min_eq_left hle]
+
+/-- COUNTEREXAMPLE to the optimality of the k-split fit for a fixed number of clusters (kernel-checked): on `exCRows` the
+    bin means are 0, 1, 21/10; the greedy agglomeration merges the two closest means first (0 and 1: distance 1 < 1.21), so
+    its two-cluster candidate is {0, 1} | {2} with RSS 4/5 — but the partition {0} | {1, 2} has RSS 121/200 < 4/5 (the greedy
+    rule ignores the cluster sizes). -/
+example :
+    ((ksplitCands 1 (0 : ℚ) 1000 Crit.rss 0 exCRows)[1]?.map fun c => (c.rss, c.h2t)) = some (4 / 5, [0, 0, 1]) ∧
+    rssOfC 1 exCRows (tablePred fun h => if h = 0 then (fun _ => 0) else (fun _ => 31 / 20)) = 121 / 200 ∧
+    (121 / 200 : ℚ) < 4 / 5 := by
+  refine ⟨by decide +kernel, by decide +kernel, by norm_num⟩
 
 /-- merging two affine learners on the same feature gives one learner -/
 example : (merge [Learner.affine 0 [fun _ => (1 : ℚ), fun _ => 2], Learner.affine 0 [fun _ => 3, fun _ => 4]]).length = 1 := by
